@@ -38,6 +38,10 @@ trait Coll {
     fn delete(&mut self, m: &mut Module, rid: usize) -> bool;
     fn get(&self, m: &Module, rid: usize) -> Option<u32>;
     fn iter(&self, m: &Module) -> Vec<(usize, u32)>;
+    /// the same lookup through the collection's `get_mut` (None: it has none; Some(None): the id is reported absent)
+    fn get_mut(&self, _m: &mut Module, _rid: usize) -> Option<Option<u32>> {
+        None
+    }
     /// the same listing through the collection's `iter_mut` (None: it has none)
     fn iter_mut(&self, _m: &mut Module) -> Option<Vec<(usize, u32)>> {
         None
@@ -80,6 +84,13 @@ macro_rules! simple_coll {
                     let $it = m.$field.get(id);
                     $tok
                 })
+            }
+            fn get_mut(&self, m: &mut Module, rid: usize) -> Option<Option<u32>> {
+                let Some(id) = self.real(rid) else { return Some(None) };
+                Some(quiet(|| {
+                    let $it = &*m.$field.get_mut(id);
+                    $tok
+                }))
             }
             fn iter(&self, m: &Module) -> Vec<(usize, u32)> {
                 m.$field.iter().map(|$it| ($it.id().index(), $tok)).collect()
@@ -457,7 +468,12 @@ pub fn replay(coll: &str, hid: &str, ops: &[Op]) -> Value {
             "get" => {
                 let Some(rid) = fresh.get(op.id - 1).copied() else { continue };
                 let r = c.get(&m, rid);
-                events.push(json!({"op": "get", "rid": rid, "found": r.is_some(), "v": r.unwrap_or(0)}));
+                let mut ev = json!({"op": "get", "rid": rid, "found": r.is_some(), "v": r.unwrap_or(0)});
+                if let Some(rm) = c.get_mut(&mut m, rid) {
+                    ev["found_mut"] = json!(rm.is_some());
+                    ev["v_mut"] = json!(rm.unwrap_or(0));
+                }
+                events.push(ev);
             }
             "iter" => {
                 if coll == "customs_typed" {
